@@ -642,6 +642,9 @@ def np_copy(I, a, kw, node):
 
 
 def np_asarray(I, a, kw, node):
+    if type(a[0]).__name__ == "SSeries" and getattr(I.reg, "series_numeric_asarray", False):
+        from .pandas_m import series_as_array
+        return series_as_array(a[0])
     return a[0]
 
 
